@@ -1780,14 +1780,36 @@ class Module(ABC):
         if name in channel_names:
             channel_cols = list(channel.channel_params.keys())
             channel_cols += list(channel.channel_states.keys())
-            self.base.nodes.loc[self._nodes_in_view, channel_cols] = float("nan")
-            self.base.nodes.loc[self._nodes_in_view, name] = False
+
+            # Only the compartments in view which actually contain the channel.
+            has_channel = self.base.nodes.loc[self._nodes_in_view, name].to_numpy()
+            rows = self._nodes_in_view[has_channel.astype(bool)]
+            self.base.nodes.loc[rows, name] = False
+
+            # Columns such as `vt` or `eK` can be shared with other channels. They are
+            # only cleared in compartments where no remaining channel uses them.
+            def users_of(col):
+                return [
+                    c._name
+                    for c in self.base.channels
+                    if c._name != name
+                    and (col in c.channel_params or col in c.channel_states)
+                ]
+
+            for col in channel_cols:
+                users = users_of(col)
+                still_used = self.base.nodes.loc[rows, users].any(axis=1).to_numpy()
+                self.base.nodes.loc[rows[~still_used], col] = float("nan")
 
             # only delete cols if no other comps in the module have the same channel
             if np.all(~self.base.nodes[name]):
                 self.base.channels.pop(all_channel_names.index(name))
-                self.base.membrane_current_names.remove(channel.current_name)
-                self.base.nodes.drop(columns=channel_cols + [name], inplace=True)
+                if channel.current_name not in [
+                    c.current_name for c in self.base.channels
+                ]:
+                    self.base.membrane_current_names.remove(channel.current_name)
+                unused_cols = [col for col in channel_cols if len(users_of(col)) == 0]
+                self.base.nodes.drop(columns=unused_cols + [name], inplace=True)
         else:
             raise ValueError(f"Channel {name} not found in the module.")
 
